@@ -55,10 +55,10 @@ ASSUMPTIONS = ["CPython iterates a small set by slot index, so n keys with force
                "tier, every length-3 substring of each sensitive token as keyword; not all contents",
                "blank means the empty string, as in the code; whitespace-only lines count as non-blank",
                "bounded: no counterexample within the stated bounds, nothing more"]
-BOUNDS = {"quick": {"orders_per_case": "all n! (n <= 6)", "hash_seeds": 16, "generated_keyword_cases": False,
+BOUNDS = {"quick": {"orders_per_case": "all n! (n <= 6)", "hash_seeds": 16, "generated_cases": "substrings + 9x9 kinds x 4 glues + same-text + substitutes",
                     "inside_set_orders": "all n! per set built via set() in the obfuscator modules (n <= 5)", "max_lines": 4, "line_kinds": 6, "clean_content_configs": 60, "clean_file_configs": 5,
                     "provider_configs": 3},
-          "thorough": {"orders_per_case": "all n! (n <= 6)", "hash_seeds": 64, "generated_keyword_cases": True,
+          "thorough": {"orders_per_case": "all n! (n <= 6)", "hash_seeds": 64, "generated_cases": "substrings + 9x9 kinds x 7 glues + same-text + substitutes",
                        "inside_set_orders": "all n! per set built via set() in the obfuscator modules (n <= 5)", "max_lines": 5, "line_kinds": 6, "clean_content_configs": 60, "clean_file_configs": 5,
                        "provider_configs": 4}}
 CAP_S = {"quick": 120, "thorough": 1200}
@@ -151,6 +151,39 @@ def catalogue():
         _c("inside:two-keywords", ["x KWA KWB y KWB KWA"], ["KWA", "KWB"]),
         _c("inside:three-keywords", ["x KWC KWA KWB y"], ["KWB", "KWC", "KWA"]),
         _c("inside:two-passwords", ["password=abc123 password2=xyz789"]),
+        # more than N of a thing: the host<N> / address counters cross 9 -> 10 within one line and over lines
+        _c("inside:twelve-new-hostnames", ["via " + " ".join("gw-%s.corp.test" % ch for ch in "abcdefghijkl"),
+                                           "then gw-k.corp.test gw-b.corp.test n1.corp.test"]),
+        _c("inside:eleven-ipv4", ["peers " + " ".join("10.1.1.%d" % i for i in range(1, 12)), "then 10.1.1.10 10.1.1.2 10.9.9.9"]),
+        # boundary configurations
+        _c("boundary:bare-system-hostname", ["host web01 and web01.corp.test and web010"], fqdn="web01"),
+        _c("boundary:keyword-with-regex-metacharacters", ["x a.b a+b (a) a?b y a-b"], ["a.b", "(a)", "a+b"]),
+        _c("boundary:keyword-case-variants", ["x Web web WEB web01 y"], ["web", "Web"]),
+        _c("boundary:blank-lines-between", ["host web01.corp.test", "", " ", "addr 10.1.2.3", ""], ["web"]),
+        # more than one competing pair in play on one line / in one content
+        _c("multi:keywords-in-every-kind",
+           ["host web01.corp.test addr 10.1.2.3 ether aa:bb:cc:dd:ee:ff inet6 fe80::1 password=abc123"],
+           ["web", "230", "bb:cc", "fe80", "password"]),
+        _c("multi:password-values-of-every-kind",
+           ["password=web01.corp.test password2=10.1.2.3 password3=aa:bb:cc:dd:ee:ff password4=fe80::1"], ["web"]),
+        _c("multi:three-line-content",
+           ["password=10.1.1.1 on web01", "ether aa:bb:cc:dd:ee:ff at 10.1.1.11-22-33-44-55-66", "web01x fe80::10.1.1.1"],
+           ["web01x", "bb:cc"]),
+        # two-step histories: ONE cleaner cleans an earlier spec first; the later output must be determined too
+        _c("history:hostnames-numbered-by-earlier-spec", ["route via gw-a.corp.test gw-b.corp.test"],
+           pre=[["peer gw-b.corp.test", "peer db.corp.test"]]),
+        _c("history:ipv4-numbered-by-earlier-spec", ["peers 10.1.1.1 10.1.1.2 10.1.1.3"], pre=[["addr 10.1.1.2"], ["addr 10.9.9.9 10.1.1.3"]]),
+        _c("history:keyword-in-hostname", ["host web01.corp.test up"], ["web"], pre=[["first web01 seen here", "and db.corp.test"]]),
+        _c("history:password-value-is-ip", ["password=10.1.1.1"], pre=[["addr 10.1.1.1 10.1.1.2"]]),
+        _c("history:same-spec-twice", ["host web01.corp.test 10.1.2.3 aa:bb:cc:dd:ee:ff fe80::1 password=abc KW"], ["KW"],
+           pre=[["host web01.corp.test 10.1.2.3 aa:bb:cc:dd:ee:ff fe80::1 password=abc KW"]]),
+        # the single-string entry point of clean_content
+        _c("string:keyword-in-hostname", ["host web01.corp.test up"], ["web"], as_string=True),
+        _c("string:keyword-is-password-word", ["password=abc123"], ["password"], as_string=True),
+        _c("string:password-value-is-ip", ["password=10.1.1.1"], as_string=True),
+        _c("string:two-new-hostnames-equal-length", ["route via gw-a.corp.test gw-b.corp.test"], as_string=True),
+        _c("string:separate-tokens", ["KW web01.corp.test 10.1.1.1 aa:bb:cc:dd:ee:ff fe80::1 password=abc"], ["KW"], as_string=True),
+        _c("string:empty", [""], as_string=True),
     ]
 
 
@@ -160,9 +193,20 @@ GEN_TOKENS = [("hostname", "web01.corp.test", "host %s up"),
               ("ipv6", "fe80::a1:b2", "inet6 %s scope"),
               ("password-assignment", "password=abc123", "opt %s end")]
 
+# one token per sensitive kind; "kw" is the configured keyword itself
+KIND_TOKENS = [("fqdn", "web01.corp.test"), ("short", "web01"), ("otherhost", "db.corp.test"), ("ip", "10.1.2.3"),
+               ("mac", "aa:bb:cc:dd:ee:ff", ), ("dmac", "aa-bb-cc-dd-ee-ff"), ("ipv6", "fe80::a1:b2"),
+               ("pw", "password=abc123"), ("kw", "KWX")]
+GLUES = {"quick": ["", ".", ":", "-"], "thorough": ["", ".", ":", "-", "=", "/", " "]}
+SUBSTITUTE_WORDS = ["230", "10.230", "example", "example.com", "host", "keyword", "keyword0", "****", "c07c"]
 
-def generated():
-    """Thorough tier: every distinct length-3 substring of each sensitive token as the keyword."""
+
+def generated(tier):
+    """Generated competing contents (instead of a hand-picked list):
+    inside    every distinct length-3 substring of each sensitive token as the keyword;
+    adjacent  every ORDERED pair of token kinds (9 x 9, a kind with itself included) glued by each glue string;
+    same      the keyword / the password value equal to the token of each kind; the token inside a longer keyword;
+    subst     words that occur in the substitutes as keywords."""
     out = []
     for kind, tok, tmpl in GEN_TOKENS:
         seen = []
@@ -171,13 +215,25 @@ def generated():
             if w not in seen:
                 seen.append(w)
                 out.append(_c("keyword-in-%s" % kind, [tmpl % tok], [w], gen=True))
+    for k1, t1 in KIND_TOKENS:
+        for k2, t2 in KIND_TOKENS:
+            for g in GLUES[tier]:
+                out.append(_c("gen:adjacent:%s+%s" % (k1, k2), ["x %s%s%s y" % (t1, g, t2)], ["KWX"], gen=True))
+    for k, t in KIND_TOKENS:
+        if k in ("kw", "pw"):
+            continue
+        out.append(_c("gen:keyword-equals:%s" % k, ["x %s y" % t], [t], gen=True))
+        out.append(_c("gen:token-inside-keyword:%s" % k, ["x %sx y x%s z" % (t, t)], [t + "x", "x" + t], gen=True))
+        for form in ("password=%s", "password: %s", "password %s", "password=\"%s"):
+            out.append(_c("gen:password-value-equals:%s" % k, [form % t], gen=True))
+    for w in SUBSTITUTE_WORDS:
+        out.append(_c("gen:keyword-in-substitute", ["host web01.corp.test db.corp.test addr 10.1.2.3 KWX password=abc123"],
+                      [w, "KWX"], gen=True))
     return out
 
 
 def cases_a(tier):
-    cs = catalogue()
-    if BOUNDS[tier]["generated_keyword_cases"]:
-        cs += generated()
+    cs = catalogue() + generated(tier)
     for i, c in enumerate(cs):
         c["n"] = i
     return cs
